@@ -171,9 +171,9 @@ pub fn raw_exec2(seq: &SeqCase, slices: bool, deadline: bool, sched: Sched) -> R
                 alg,
                 &mut hook,
                 o,
-                seq.or(),
+                seq.or_abs(),
                 n,
-                seq.nr(),
+                seq.nr_abs(),
                 dl
             ))
         }
@@ -182,8 +182,16 @@ pub fn raw_exec2(seq: &SeqCase, slices: bool, deadline: bool, sched: Sched) -> R
     let hits = similar::verif::take_hits();
     let st = clock.borrow();
     let result = res?;
+    let (so, sn) = seq.shifts();
+    let mut calls = Vec::with_capacity(hook.calls.len());
+    for c in hook.calls {
+        match c.unshift(so, sn) {
+            Some(c) => calls.push(c),
+            None => return Err(format!("{:?} reports an index below the start of the caller's sequence", c)),
+        }
+    }
     Ok(RawRun {
-        calls: hook.calls,
+        calls,
         result,
         probes: st.probes,
         first_expired: st.first_expired,
@@ -257,15 +265,21 @@ pub fn capture_exec2(seq: &SeqCase, slices: bool, deadline: bool, sched: Sched) 
             with_lookups!(seq, oldc, newc, |o, n| capture_diff_deadline(
                 alg,
                 o,
-                seq.or(),
+                seq.or_abs(),
                 n,
-                seq.nr(),
+                seq.nr_abs(),
                 dl
             ))
         }
     })?;
     let st = clock.borrow();
-    Ok(cap_from(ops_of(&ops), &st, np0))
+    let (so, sn) = seq.shifts();
+    let ops = if slices {
+        ops_of(&ops)
+    } else {
+        crate::oracle::unshift_ops(ops_of(&ops), so, sn)?
+    };
+    Ok(cap_from(ops, &st, np0))
 }
 
 fn tokens(xs: &[u32]) -> Vec<String> {
@@ -772,9 +786,9 @@ impl C07 {
                             alg,
                             &mut h,
                             o,
-                            seq.or(),
+                            seq.or_abs(),
                             n,
-                            seq.nr(),
+                            seq.nr_abs(),
                             Some(instant_at(DL))
                         ))
                     });
